@@ -67,9 +67,14 @@ func H_C18_eth_header() {
 		fDifficulty
 		fSealInvalid
 		fAlreadyStored
+		fNumber
 		nFaults
 	)
 	fault := vp.Choice("fault", nFaults)
+	number := uint64(1001)
+	if fault == fNumber {
+		number = []uint64{1000, 1002, 1003}[vp.Choice("header.number", 3)] // anything but the parent's number plus one
+	}
 	dt := []uint64{1, 8, 9, 17, 18, 1000}[vp.Choice("header.time.delta", 6)]
 	htime := ptime + dt
 	if fault == fTimeNotLater {
@@ -105,7 +110,7 @@ func H_C18_eth_header() {
 		ph = vp.Bytes("header.parentHash", 32, 32)
 	}
 	h := &ethtypes.Header{ParentHash: ph, UncleHash: emptyUncleHash, Coinbase: make([]byte, 20), Root: []byte{4}, TxHash: []byte{5}, ReceiptHash: []byte{6},
-		Bloom: make([]byte, 256), Difficulty: strconv.FormatUint(difficulty, 10), Height: clienttypes.NewHeight(0, 1001), GasLimit: gasLimit, GasUsed: 1,
+		Bloom: make([]byte, 256), Difficulty: strconv.FormatUint(difficulty, 10), Height: clienttypes.NewHeight(0, number), GasLimit: gasLimit, GasUsed: 1,
 		Time: htime, Extra: []byte{}, MixDigest: make([]byte, 32), Nonce: 2, BaseFee: baseFee}
 	if fault == fAlreadyStored {
 		hb, _ := cdc.MarshalInterface(h)
@@ -133,6 +138,7 @@ func H_C18_eth_header() {
 	if err == nil {
 		vp.Reach("eth header accepted")
 		vp.Assert(parentKnown, "C18.1 accepted only if its parent is a stored header")
+		vp.Assert(number == 1001, "C18.1 accepted only if its number is its parent's number plus one")
 		vp.Assert(fault != fAlreadyStored, "C18.1 a header the client already has is refused")
 		vp.Assert(timeOK, "C18.1 accepted only if its time is later than the parent's and at most 15 s ahead of chain time")
 		vp.Assert(gasOK && baseFee == "1000000000", "C18.1 accepted only if gas limit and base fee follow EIP-1559 from the parent")
@@ -145,7 +151,7 @@ func H_C18_eth_header() {
 	} else {
 		vp.Reach("eth header rejected")
 	}
-	if parentKnown && fault != fAlreadyStored && timeOK && gasOK && baseFee == "1000000000" && difficulty == expected && sealOK {
+	if parentKnown && number == 1001 && fault != fAlreadyStored && timeOK && gasOK && baseFee == "1000000000" && difficulty == expected && sealOK {
 		vp.Assert(err == nil, "C18.4 a valid child of the stored head is accepted")
 	}
 }
